@@ -708,6 +708,12 @@ def expr_lb(eng, f, e, self_field=None, depth=4):
             ds = local_defs(f).get(e["decl"], [])
             if len(ds) == 1:
                 return expr_lb(eng, f, ds[0], self_field, depth - 1)
+            # several plain definitions (a clamp: x = a; if (b < x) x = b;): the value is one of them
+            plain = [d for d in ds if not (d.get("k") == "un" or any(y.get("k") == "ref" and y.get("decl") == e["decl"] for y in walk(d)))]
+            if ds and len(plain) == len(ds):
+                vals = [expr_lb(eng, f, d, self_field, depth - 1) for d in ds]
+                if "INV" not in vals:
+                    return min(vals)
         return 0
     if k == "call":
         nm = callee_name(e)
@@ -1222,6 +1228,35 @@ def is_builder(eng, f, depth=0):
         all(is_builder(eng, cf, depth + 1) for cf, _ in sites)
 
 
+def clamped_to(f, decl, bound, at):
+    """local `decl` is at most `bound` (a parameter that is never assigned) at node `at`: its definitions are an initial value and
+    `decl = bound` under the guard `bound < decl` (any spelling), and the clamp dominates `at`."""
+    if not decl or not f.cfg_raw:
+        return False
+    ds = local_defs(f).get(decl, [])
+    if len(ds) != 2:
+        return False
+    asg = [x for x in f.nodes() if x.get("k") == "assign" and lvalue_root(x["l"]) == decl]
+    if len(asg) != 1 or canon(strip_all_casts(asg[0]["r"])) != bound:
+        return False
+    if any(d == bound for d, _, _ in writes_of(f)):
+        return False
+    mf = MustFacts(f)
+    guarded = False
+    for a in mf.at(asg[0]):
+        if a[0] == "cmp":
+            for x, y, o in ((a[1], a[3], a[2]), (a[3], a[1], facts._flip_op(a[2]))):
+                if x == bound and y == decl and o in ("<", "<="):
+                    guarded = True
+    if not guarded:
+        return False
+    cfg = f.cfg
+    # the if statement that holds the clamp dominates the use: the branch block of the guard dominates `at`
+    ab, ub = cfg.block_for(asg[0]), cfg.block_for(at)
+    preds = [p for p, _ in cfg.pred.get(ab, [])]
+    return bool(preds) and all(cfg.dominates(p, ub) for p in preds) and ab != ub
+
+
 def sized_to(eng, f, c, vecname):
     """canon of the expression the vector `vecname` was sized to before copy c in f: a dominating resize, the
     constructor's member initialiser, or the initialiser of the constructor this one delegates to."""
@@ -1317,6 +1352,8 @@ def justify_copy(eng, f, c, dst, src, ln, managed=False):
                 if g is None and len(ld) == 1 and callee_name(strip_all_casts(ld[0])) == "std::min" and \
                         any(canon(strip_all_casts(x)) == sdecl for x in strip_all_casts(ld[0]).get("args", [])) and ps.off == 0:
                     g = True
+                if g is None and ps.off == 0 and clamped_to(f, strip_all_casts(ln).get("decl"), sdecl, c):
+                    g = True  # the same minimum spelled as a clamp: x = a; if (size < x) x = size;
                 rd_ok = g is not None and lb >= ps.off
                 reasons.append("length `%s` guarded by `<= %s - %d`" % (lcan, sdecl.split(":")[-1], ps.off) if rd_ok else
                                "length `%s` is not bounded by the remaining %s - %d bytes" % (lcan, sdecl.split(":")[-1], ps.off))
